@@ -412,11 +412,14 @@ class Builder:
                     if rng.random() < 0.1:
                         nm = []
                     rec.name = nm
+                    # the setter takes the encoded name the slice STARTS with: bytes after the root label (a caller handing over a whole
+                    # name buffer) must be ignored
+                    junk = bytes(rng.getrandbits(8) for _ in range(rng.choice([1, 2, 7, 200]))) if (rng.random() < 0.25 and not c_safe) else b""
                     if c_safe:
                         acts += ["M" + hx(G.wire_name(nm)), "n"]
                         obs += ["M=OK", "n=" + hx(name_text(nm))]
                     else:
-                        acts += ["M" + hx(G.wire_name(nm)), "n", "o"]
+                        acts += ["M" + hx(G.wire_name(nm) + junk), "n", "o"]
                         obs += ["M=OK", "n=" + hx(name_text(nm)), None]
                 elif choice == "Merr":
                     bad = rng.choice([b"\x03ab", b"\x40" + b"a" * 64 + b"\0", b"\x03a.b\0", b"\x03a\x01b\0", b"\xc0\x0c", b"", G.wire_name(G.name_of_wire_len(255))[:-1] + b"\x01a\0"])
@@ -459,7 +462,8 @@ class Builder:
         if action == "M":
             nm = [self.fresh_label(), b"example"]
             a.q = (nm, a.q[1], a.q[2])
-            acts += ["M" + hx(G.wire_name(nm)), "n"]
+            junk = bytes(self.rng.getrandbits(8) for _ in range(self.rng.choice([1, 3, 240]))) if self.rng.random() < 0.25 else b""
+            acts += ["M" + hx(G.wire_name(nm) + junk), "n"]
             obs += ["M=OK", "n=" + hx(name_text(nm))]
         elif action == "X":
             a.q = None
